@@ -15,6 +15,7 @@ import (
 	"strconv"
 	"strings"
 	"sync"
+	"sync/atomic"
 	"testing"
 	"testing/iotest"
 	"time"
@@ -130,7 +131,7 @@ type ReqSpec struct {
 
 // Act is one step of the harness script.
 type Act struct {
-	Kind string `json:"k"` // start | release
+	Kind string `json:"k"` // start | release | level (Req is then the base logger's new minimum level)
 	Req  int    `json:"r"`
 }
 
@@ -198,6 +199,9 @@ type recHandler struct {
 	// tag, when set, is added to every record as attribute "mw" (tells the
 	// records of two nested middlewares apart).
 	tag string
+	// dyn, when set, is the base minimum level shared by the whole handler
+	// tree; the script moves it while requests are in flight (a LevelVar).
+	dyn *atomic.Int64
 }
 
 // derivedMin is the minimum level of a handler derived with the attributes as.
@@ -210,7 +214,12 @@ func (h *recHandler) derivedMin(as []slog.Attr) slog.Level {
 	return h.min
 }
 
-func (h *recHandler) Enabled(_ context.Context, l slog.Level) bool { return l >= h.min }
+func (h *recHandler) Enabled(_ context.Context, l slog.Level) bool {
+	if h.dyn != nil && h.min != -100 {
+		return l >= slog.Level(h.dyn.Load())
+	}
+	return l >= h.min
+}
 func (h *recHandler) Handle(_ context.Context, r slog.Record) error {
 	lr := logRec{msg: r.Message, attrs: map[string]string{}}
 	if h.tag != "" {
@@ -234,15 +243,15 @@ func (h *recHandler) WithAttrs(as []slog.Attr) slog.Handler {
 	case 1: // copy, then wipe the slice it was given
 		own := slices.Clone(as)
 		clear(as)
-		return &recHandler{mu: h.mu, recs: h.recs, attrs: own, min: h.derivedMin(own), mode: h.mode, verbose: h.verbose, tag: h.tag}
+		return &recHandler{mu: h.mu, recs: h.recs, attrs: own, min: h.derivedMin(own), mode: h.mode, verbose: h.verbose, tag: h.tag, dyn: h.dyn}
 	case 2: // copy, then rewrite the keys of the slice it was given
 		own := slices.Clone(as)
 		for i := range as {
 			as[i].Key = "scribbled." + as[i].Key
 		}
-		return &recHandler{mu: h.mu, recs: h.recs, attrs: own, min: h.derivedMin(own), mode: h.mode, verbose: h.verbose, tag: h.tag}
+		return &recHandler{mu: h.mu, recs: h.recs, attrs: own, min: h.derivedMin(own), mode: h.mode, verbose: h.verbose, tag: h.tag, dyn: h.dyn}
 	}
-	return &recHandler{mu: h.mu, recs: h.recs, attrs: as, min: h.derivedMin(as), mode: h.mode, verbose: h.verbose, tag: h.tag}
+	return &recHandler{mu: h.mu, recs: h.recs, attrs: as, min: h.derivedMin(as), mode: h.mode, verbose: h.verbose, tag: h.tag, dyn: h.dyn}
 }
 func (h *recHandler) WithGroup(string) slog.Handler { return h }
 
@@ -349,8 +358,15 @@ func checkBatch(c BatchCase) error {
 	vp.CurrentJSON("c20.batch", c)
 	var mu sync.Mutex
 	var recs []logRec
-	mw := httputil.NewLogMiddleware(slog.New(&recHandler{mu: &mu, recs: &recs, min: slog.Level(c.BaseMin), mode: c.HandlerMode, verbose: c.verboseHosts()}), slog.Level(c.Level))
+	dyn := &atomic.Int64{}
+	dyn.Store(int64(c.BaseMin))
+	mw := httputil.NewLogMiddleware(slog.New(&recHandler{mu: &mu, recs: &recs, min: slog.Level(c.BaseMin), mode: c.HandlerMode, verbose: c.verboseHosts(), dyn: dyn}), slog.Level(c.Level))
 	mwEnabled := c.Level >= c.BaseMin
+	// enabledNow: is the middleware's level enabled for request i at this
+	// point of the script (the base minimum may be moved by "level" steps).
+	enabledNow := func(i int) bool {
+		return int64(c.Level) >= dyn.Load() || c.verboseHosts()["host-"+reqID(i)]
+	}
 
 	n := len(c.Reqs)
 	gates := make([]chan struct{}, n)
@@ -386,7 +402,7 @@ func checkBatch(c BatchCase) error {
 			return mw.Wrap(mw.Wrap(inner))
 		case 3:
 			levels = 2
-			mw2 := httputil.NewLogMiddleware(slog.New(&recHandler{mu: &mu, recs: &recs, min: slog.Level(c.BaseMin), mode: c.HandlerMode, verbose: c.verboseHosts(), tag: "inner"}), slog.Level(c.Level))
+			mw2 := httputil.NewLogMiddleware(slog.New(&recHandler{mu: &mu, recs: &recs, min: slog.Level(c.BaseMin), mode: c.HandlerMode, verbose: c.verboseHosts(), tag: "inner", dyn: dyn}), slog.Level(c.Level))
 			if c.Early {
 				in := mw2.Wrap(inner)
 				return mw.Wrap(http.HandlerFunc(func(w http.ResponseWriter, r *http.Request) {
@@ -490,6 +506,7 @@ func checkBatch(c BatchCase) error {
 	}))
 
 	recorders := make([]*sink, n)
+	startEnabled, finEnabled := make([]bool, n), make([]bool, n)
 	started := make([]bool, n)
 	released := make([]bool, n)
 	maxParked, parked := 0, 0
@@ -522,6 +539,11 @@ func checkBatch(c BatchCase) error {
 		}
 	}
 	for _, a := range c.Script {
+		if a.Kind == "level" {
+			// The operator changes the log level while requests are parked.
+			dyn.Store(int64(a.Req))
+			continue
+		}
 		i := a.Req
 		if i < 0 || i >= n {
 			continue
@@ -535,6 +557,7 @@ func checkBatch(c BatchCase) error {
 			if finished > 0 {
 				startedAfterFinish = true
 			}
+			startEnabled[i] = enabledNow(i)
 			start(i)
 			parked++
 			maxParked = max(maxParked, parked)
@@ -543,6 +566,7 @@ func checkBatch(c BatchCase) error {
 				continue
 			}
 			released[i] = true
+			finEnabled[i] = enabledNow(i)
 			close(gates[i])
 			<-done[i]
 			parked--
@@ -552,10 +576,12 @@ func checkBatch(c BatchCase) error {
 	for i := 0; i < n; i++ {
 		if !started[i] {
 			started[i] = true
+			startEnabled[i] = enabledNow(i)
 			start(i)
 		}
 		if !released[i] {
 			released[i] = true
+			finEnabled[i] = enabledNow(i)
 			close(gates[i])
 			<-done[i]
 		}
@@ -653,12 +679,18 @@ func checkBatch(c BatchCase) error {
 		}
 	}
 	for i, p := range per {
-		wantMW := levels
-		if !mwEnabled && !c.verboseHosts()["host-"+reqID(i)] {
-			wantMW = 0
+		wantStarted, wantFinished := 0, 0
+		if startEnabled[i] {
+			wantStarted = levels
 		}
-		if p.started != wantMW || p.finished != wantMW || p.inside != c.Reqs[i].Logs {
-			return fmt.Errorf("request %s: %d started, %d finished, %d inside records; want %d, %d, %d (middleware level %d, base logger minimum %d)", reqID(i), p.started, p.finished, p.inside, wantMW, wantMW, c.Reqs[i].Logs, c.Level, c.BaseMin)
+		if finEnabled[i] {
+			wantFinished = levels
+		}
+		if p.started != wantStarted || p.finished != wantFinished || p.inside != c.Reqs[i].Logs {
+			return fmt.Errorf("request %s: %d started, %d finished, %d inside records; want %d, %d, %d (middleware level %d, base logger minimum %d at the start of the script; the level was enabled when the request started: %v, when it finished: %v)", reqID(i), p.started, p.finished, p.inside, wantStarted, wantFinished, c.Reqs[i].Logs, c.Level, c.BaseMin, startEnabled[i], finEnabled[i])
+		}
+		if startEnabled[i] != finEnabled[i] {
+			vp.Class("batch:level-switched-while-the-request-was-in-flight")
 		}
 	}
 	if c.Early && c.Nest == 3 {
@@ -742,6 +774,11 @@ var batchProp = vp.Register(vp.Prop[BatchCase]{
 			// is not settled by the statement (the recorder reports 103).
 			if c.Reqs[i].Code == 0 {
 				c.Reqs[i].Pre1xx = nil
+			}
+		}
+		if rapid.IntRange(0, 3).Draw(t, "levelsteps") == 0 {
+			for k := rapid.IntRange(1, 2).Draw(t, "nlevel"); k > 0; k-- {
+				acts = append(acts, Act{Kind: "level", Req: rapid.SampledFrom([]int{-8, -4, 0, 4, 8}).Draw(t, "newmin")})
 			}
 		}
 		c.Script = rapid.Permutation(acts).Draw(t, "script")
